@@ -124,46 +124,72 @@ def new (channel : Nat) : Midi :=
     gate := false, risingGate := false, fallingGate := false,
     retrigger := false, priority := .last, held := [] }
 
-/-- `choose_next_note()` -/
-def chooseNext (m : Midi) : Nat :=
-  match m.priority with
-  | .last => m.held.getLast?.getD 0
-  | .high => m.held.foldl Nat.max 0
-  | .low => match m.held with
+/-- `choose_next_note()` on a given held list -/
+def chooseFrom (p : NotePriority) (held : List Nat) : Nat :=
+  match p with
+  | .last => held.getLast?.getD 0
+  | .high => held.foldl Nat.max 0
+  | .low => match held with
     | [] => 0
     | x :: xs => xs.foldl Nat.min x
 
+def chooseNext (m : Midi) : Nat := chooseFrom m.priority m.held
+
+/-- the held list after `held_down_notes.push(note).ok()` (silently dropped when full) -/
+def heldAfterOn (m : Midi) (note : Nat) : List Nat :=
+  if m.held.length < Gen.heldLen then m.held ++ [note] else m.held
+
+/-- the held list after `retain(|n| *n != note)` -/
+def heldAfterOff (m : Midi) (note : Nat) : List Nat := m.held.filter (· != note)
+
 /-- `handle_note_on` -/
 def noteOn (m : Midi) (note vel : Nat) : Midi :=
-  let held := if m.held.length < Gen.heldLen then m.held ++ [note] else m.held
-  let m := { m with velocity := value7ToF32 vel, held := held }
-  let m := { m with noteNum := m.chooseNext, gate := true, fallingGate := false }
-  if m.retrigger || m.held.length == 1 then { m with risingGate := true } else m
+  { m with
+    velocity := value7ToF32 vel
+    held := m.heldAfterOn note
+    noteNum := chooseFrom m.priority (m.heldAfterOn note)
+    gate := true
+    fallingGate := false
+    risingGate := m.retrigger || (m.heldAfterOn note).length == 1 || m.risingGate }
 
 /-- `handle_note_off` -/
 def noteOff (m : Midi) (note : Nat) : Midi :=
-  let m := { m with held := m.held.filter (· != note) }
-  if m.held.isEmpty then
-    { m with fallingGate := m.fallingGate || m.gate, gate := false, risingGate := false }
-  else { m with noteNum := m.chooseNext }
+  { m with
+    held := m.heldAfterOff note
+    gate := if (m.heldAfterOff note).isEmpty then false else m.gate
+    risingGate := if (m.heldAfterOff note).isEmpty then false else m.risingGate
+    fallingGate := if (m.heldAfterOff note).isEmpty then (m.fallingGate || m.gate) else m.fallingGate
+    noteNum := if (m.heldAfterOff note).isEmpty then m.noteNum else chooseFrom m.priority (m.heldAfterOff note) }
 
-def resetControllers (m : Midi) : Midi :=
-  { m with pitchBend := zero, modWheel := zero, volume := zero, vcfCutoff := zero, vcfResonance := zero,
-           portamentoTime := zero, portamentoEnabled := true, sustainEnabled := true }
+/-- which arm of the `match u8::from(cc)` in `parse` is taken (first match wins; 9 = the `_` arm) -/
+def ccArm (cc : Nat) : Nat :=
+  if cc == Gen.ccModWheel then 0
+  else if cc == Gen.ccVolume then 1
+  else if cc == Gen.ccVcfCutoff then 2
+  else if cc == Gen.ccVcfResonance then 3
+  else if cc == Gen.ccPortamentoTime then 4
+  else if cc == Gen.ccPortamentoSwitch then 5
+  else if cc == Gen.ccSustainSwitch then 6
+  else if cc == Gen.ccAllControllersOff then 7
+  else if cc == Gen.ccAllNotesOff then 8
+  else 9
 
-/-- the `ControlChange` arm -/
+/-- the `ControlChange` arm of `parse` (arm 7 = `reset_controllers()`, arm 8 = All-Notes-Off) -/
 def controlChange (m : Midi) (cc v : Nat) : Midi :=
-  if cc == Gen.ccModWheel then { m with modWheel := value7ToF32 v }
-  else if cc == Gen.ccVolume then { m with volume := value7ToF32 v }
-  else if cc == Gen.ccVcfCutoff then { m with vcfCutoff := value7ToF32 v }
-  else if cc == Gen.ccVcfResonance then { m with vcfResonance := value7ToF32 v }
-  else if cc == Gen.ccPortamentoTime then { m with portamentoTime := value7ToF32 v }
-  else if cc == Gen.ccPortamentoSwitch then { m with portamentoEnabled := decide (Gen.u7HalfScale ≤ v) }
-  else if cc == Gen.ccSustainSwitch then { m with sustainEnabled := decide (Gen.u7HalfScale ≤ v) }
-  else if cc == Gen.ccAllControllersOff then m.resetControllers
-  else if cc == Gen.ccAllNotesOff then
-    { m with held := [], fallingGate := m.fallingGate || m.gate, gate := false, risingGate := false }
-  else m
+  let a := ccArm cc
+  { m with
+    modWheel := if a == 0 then value7ToF32 v else if a == 7 then zero else m.modWheel
+    volume := if a == 1 then value7ToF32 v else if a == 7 then zero else m.volume
+    vcfCutoff := if a == 2 then value7ToF32 v else if a == 7 then zero else m.vcfCutoff
+    vcfResonance := if a == 3 then value7ToF32 v else if a == 7 then zero else m.vcfResonance
+    portamentoTime := if a == 4 then value7ToF32 v else if a == 7 then zero else m.portamentoTime
+    portamentoEnabled := if a == 5 then decide (Gen.u7HalfScale ≤ v) else if a == 7 then true else m.portamentoEnabled
+    sustainEnabled := if a == 6 then decide (Gen.u7HalfScale ≤ v) else if a == 7 then true else m.sustainEnabled
+    pitchBend := if a == 7 then zero else m.pitchBend
+    held := if a == 8 then [] else m.held
+    fallingGate := if a == 8 then (m.fallingGate || m.gate) else m.fallingGate
+    gate := if a == 8 then false else m.gate
+    risingGate := if a == 8 then false else m.risingGate }
 
 /-- what `parse` does with a decoded message -/
 def handle (m : Midi) : MidiMsg → Midi
